@@ -127,6 +127,7 @@ class ClientKit:
         self.current: Optional[str] = None
         self.tasks: Dict[str, asyncio.Task] = {}
         self.acquire_log: List[tuple] = []     # (request name, conn idx, request key)
+        self.acquire_alive: List[bool] = []
         kit = self
 
         class KitConnector(BaseConnector):
@@ -155,6 +156,7 @@ class ClientKit:
                     pc.owner = name
                     pc.history.append(name)
                     kit.acquire_log.append((name, pc.idx, req.connection_key))
+                    kit.acquire_alive.append(pc.open)   # was the transport still open when it was handed out?
                     conn.add_callback(lambda pc=pc, name=name: kit._released(pc, name))
                 return conn
 
